@@ -12,7 +12,7 @@ NEED_EXT = True
 REQUIRED = ["count.fit_transform", "tfidf.fit_transform", "count.transform", "tfidf.transform",
             "vocabulary", "feature_names"]
 RULE = ("corpora over a 14-word alphabet incl. stop words, mixed case and punctuation; empty, one-token, "
-        "shorter-than-n and repeated-token documents; options drawn from ngram_range 1<=a<=b<=4, stop_words, "
+        "shorter-than-n and repeated-token documents, a quarter of the corpora from a vocabulary whose lower case and case folding differ (sharp s, final sigma, long s, dotted I) and non-Latin tokens; options drawn from ngram_range 1<=a<=b<=4 (a=0 in 6%: accepted by scikit-learn), stop_words, "
         "lowercase, binary, min_df, max_df, max_features, tf-idf switches; non-trivial = vocabulary of >= 3 "
         "terms with at least one n-gram of length >= 2; distinct = distinct (options, corpus)")
 ASSUMPTIONS = ["default tokenizer / analyzer='word' (the property's domain)",
@@ -20,6 +20,10 @@ ASSUMPTIONS = ["default tokenizer / analyzer='word' (the property's domain)",
                "inconsistent) the traceable one must refuse it too; such cases are counted, not compared"]
 
 WORDS = ["aa", "bb", "cc", "dd", "the", "is", "and", "of", "cat", "The", "IS", "Cat", "dog", "x1"]
+# tokens whose lower case and case folding differ (sharp s, final sigma, long s, dotted capital I), accented and
+# non-Latin tokens, upper / lower pairs of them
+INTL = ["straße", "strasse", "Straße", "STRASSE", "ΟΔΟΣ", "οδος", "οδοσ", "fluſs", "fluss", "İstanbul", "istanbul",
+        "naïve", "NAÏVE", "été", "Été", "日本", "ÅNGSTRÖM", "ångström", "ǅungla", "ǆungla"]
 PUNCT = [" ", " ", " ", ", ", ". ", "  ", "! ", " - "]
 
 
@@ -30,6 +34,7 @@ def cases(tier, seed):
 
 def make_corpus(rng, ndocs):
     docs = []
+    intl = rng.rand() < 0.25
     for _ in range(ndocs):
         r = rng.rand()
         if r < 0.12:
@@ -41,6 +46,8 @@ def make_corpus(rng, ndocs):
         else:
             ln = int(rng.randint(4, 12))
         vocab = WORDS if rng.rand() < 0.7 else WORDS[:5]
+        if intl:
+            vocab = INTL + WORDS[:4]
         toks = [vocab[rng.randint(len(vocab))] for _ in range(ln)]
         if ln >= 2 and rng.rand() < 0.3:
             toks[1] = toks[0]
@@ -54,6 +61,8 @@ def make_corpus(rng, ndocs):
 def make_options(rng):
     a = [1, 1, 1, 2, 2, 3, 4][rng.randint(7)]
     b = int(rng.randint(a, 5))
+    if rng.rand() < 0.06:
+        a = 0      # accepted by scikit-learn: a document without any token then yields the empty n-gram once
     o = {"ngram_range": (a, b)}
     r = rng.rand()
     if r < 0.3:
